@@ -210,7 +210,7 @@ impl<R: Host> TcpConnectorFut<R> {
 //@end
 
 #[verifier::loop_isolation(false)]
-//@extract file=actix-tls/src/connect/tcp.rs item="impl<R: Host> Future for TcpConnectorFut<R> / fn poll" ret=r props=C19 name=tcp::fut_poll alias_get_mut
+//@extract file=actix-tls/src/connect/tcp.rs item="impl<R: Host> Future for TcpConnectorFut<R> / fn poll" ret=r props=C19 name=tcp::fut_poll alias_get_mut closures=1
 //@spec
     requires
         old(self).wf(),
